@@ -15,6 +15,8 @@ from typing import Any, Callable
 _STATE: dict[str, dict] = {}
 _BREACHES: list[dict] = []
 _ATTACHED = False
+SUITE_BREACHES: list[dict] = []
+CURRENT_TEST = None
 
 
 def begin_case() -> None:
@@ -61,7 +63,7 @@ def attach(prop_id: str) -> dict:
     from . import probe_defs  # noqa: F401  (registers installers)
 
     for name, (serves, fn) in INSTALLERS.items():
-        if prop_id not in serves and "*" not in serves:
+        if prop_id != "ALL" and prop_id not in serves and "*" not in serves:
             continue
         st = _reg(name)
         try:
